@@ -48,11 +48,14 @@ impl Scenario for Lifecycle {
         "seeded lifecycle runs (archive × codec × sync/async writer and reader × transfer/pending policies); distinct = distinct serialized cases; non-trivial = at least one tile and a non-plain schedule on writer or reader disk".into()
     }
     fn generate(&self, rng: &mut Rng, tier: Tier, run: u64) -> Value {
-        let titanic = self.prop == "C02" && (run == 1 || (run == 2 && tier == Tier::Thorough));
+        let titanic = self.prop == "C02" && (run == 1 || (run == 3 && tier == Tier::Thorough));
         let size = if titanic {
             // one archive per batch (async writer; thorough: one more through the sync writer)
             // whose first pointer root is over the budget, so the leaf size has to grow
             SizeClass::Titanic
+        } else if (run == 0 && (self.prop == "C01" || self.prop == "C10")) || (run == 2 && self.prop == "C02") {
+            // one archive per batch whose single root directory holds > 2^18 entries
+            SizeClass::MegaRegular
         } else if run == 0 && (self.prop == "C02" || self.prop == "C06") {
             // exactly one archive per batch that is large enough for the leaf-size loop to matter
             SizeClass::Colossal
@@ -67,7 +70,7 @@ impl Scenario for Lifecycle {
         } else {
             draw_size(rng, self.huge_pct)
         };
-        let ic = if size == SizeClass::Colossal || size == SizeClass::Titanic { 1 } else if size == SizeClass::Gigantic { *rng.pick(&[1u8, 2, 4]) } else if size == SizeClass::ManyRegular { *rng.pick(&[2u8, 4, 2, 4, 1]) } else { draw_ic(rng, size == SizeClass::Huge || size == SizeClass::Window) };
+        let ic = if size == SizeClass::Colossal || size == SizeClass::Titanic { 1 } else if size == SizeClass::Gigantic { *rng.pick(&[1u8, 2, 4]) } else if size == SizeClass::ManyRegular { *rng.pick(&[2u8, 4, 2, 4, 1]) } else if size == SizeClass::MegaRegular { *rng.pick(&[2u8, 4, 4]) } else { draw_ic(rng, size == SizeClass::Huge || size == SizeClass::Window) };
         let a = draw_archive(rng, size, ic);
         let mut wface = Face::draw(rng);
         let rface = Face::draw(rng);
